@@ -227,17 +227,38 @@ def _hashcanon(ctx, cfg, prog, mod):
             tt = al.operand_target(t.args[0])
             roots = [t.args[0].place.local] + ([tt[0]] if tt is not None else [])
             canon, u64sort, keysort = False, False, []
+            all_leaves = []
             for rl in roots:
                 leaves, _ = valueflow.content_sources(b, al, rl)
-                for l in leaves:
+                all_leaves += leaves
+            # a hashing helper that receives the slice as a parameter: judge the argument at its call sites
+            params = {l[1] for l in all_leaves if l[0] == 'param'}
+            if params and b.kind != 'closure':
+                for cq in sorted(prog.callers.get(q, ())):
+                    cb_ = prog.bodies.get(cq)
+                    if cb_ is None:
+                        continue
+                    cal = mod.aliases(cq)
+                    for cbb, ct in cb_.calls():
+                        if (ct.resolved or ct.callee) != q:
+                            continue
+                        for pi in params:
+                            if pi - 1 < len(ct.args) and ct.args[pi - 1].place is not None:
+                                ctt = cal.operand_target(ct.args[pi - 1])
+                                for rl2 in [ct.args[pi - 1].place.local] + ([ctt[0]] if ctt is not None else []):
+                                    more, _ = valueflow.content_sources(cb_, cal, rl2)
+                                    all_leaves += [(x[0], x[1], x[2] if len(x) > 2 else None, cq) if x[0] == 'call' else x for x in more]
+            for _once in (0,):
+                for l in all_leaves:
                     if l[0] != 'call':
                         continue
+                    lb = prog.bodies[l[3]] if len(l) > 3 and l[3] in prog.bodies else b
                     cn = l[1].resolved or l[1].callee or ''
                     if cn == CANON:
                         canon = True
                     if cn.rsplit('::', 1)[-1] in SORTS or cn.rsplit('::', 1)[-1].startswith('sort_'):
                         st = (l[1].func.const.get('selfty') or '') if l[1].func is not None and l[1].func.kind == 'k' else ''
-                        arg0 = b.locals[l[1].args[0].place.local] if l[1].args and l[1].args[0].place is not None else ''
+                        arg0 = lb.locals[l[1].args[0].place.local] if l[1].args and l[1].args[0].place is not None else ''
                         if 'u64' in (st + ' ' + arg0) and 'VertexKey' not in (st + ' ' + arg0):
                             u64sort = True
                         elif 'VertexKey' in (st + ' ' + arg0) and cn.rsplit('::', 1)[-1] in SORTS:
